@@ -635,7 +635,10 @@ class JsonHistory(History):
             The thread that was spawned to flush history
         """
         # Implicitly covers case of self.remember_history being False.
-        if len(self.buffer) == 0:
+        # The at-exit flusher runs with an empty buffer, too: it is what unlocks
+        # the session file and stamps its closing time (and it waits for
+        # background flushers that are still writing).
+        if len(self.buffer) == 0 and not at_exit:
             return
 
         def skip(num):
